@@ -8,9 +8,9 @@ META = {
             'reference merge written from the property, serialised and compared as one string. C03-b: the value goes '
             'through the real tokenizer character by character.',
     'bounds': {
-        'quick': 'K<=2 mentions over 12 kinds x 5 names, values 1..2 chars (code points <256, no line breaks); 9 option '
+        'quick': 'K<=2 mentions over 12 kinds x 5 names, values 1..2 chars (code points <256, no line breaks); 14 option '
                  'sets (quotes, compactBoolean, reverseAttributes, selfClosingStyle, attributeCase, jsx, vue, custom '
-                 'markup.attributes); char level: quoted / unquoted / shorthand value of <=2 chars',
+                 'markup.attributes, and the pairs case+mapping, case+jsx, mapping+jsx, compact+case, reverse+quotes); char level: quoted / unquoted / shorthand value of <=2 chars',
         'thorough': 'K<=3 mentions; char level <=3 chars',
     },
     'outside_claim': ['duplicates that mix expression, boolean or implied mentions with plain ones (the property does not '
@@ -34,6 +34,10 @@ OPTSETS = {
     'xhtml': {'output.selfClosingStyle': 'xhtml'},
     'upper': {'output.attributeCase': 'upper'},
     'custom-map': {'markup.attributes': {'a': 'data-a', 'id': 'key'}},
+    # option pairs: the name mapping is applied first, the case option to the mapped name
+    'upper-map': {'output.attributeCase': 'upper', 'markup.attributes': {'a': 'data-a', 'id': 'key'}},
+    'compact-upper': {'output.attributeCase': 'upper', 'output.compactBoolean': True},
+    'reverse-single': {'output.reverseAttributes': True, 'output.attributeQuotes': 'single'},
 }
 
 
@@ -54,9 +58,11 @@ def reference(mentions, opts, syntax):
     reverse = opts.get('output.reverseAttributes', False)
     upper = opts.get('output.attributeCase') == 'upper'
     style = opts.get('output.selfClosingStyle', 'html')
-    mapping = dict(opts.get('markup.attributes') or {})
-    if syntax == 'jsx':
-        mapping.update({'class': 'className', 'for': 'htmlFor'})
+    # `markup.attributes` is ONE option: a value given by the caller replaces the syntax default as a whole (C20)
+    if 'markup.attributes' in opts:
+        mapping = dict(opts['markup.attributes'])
+    else:
+        mapping = {'class': 'className', 'for': 'htmlFor'} if syntax == 'jsx' else {}
     booleans = ('checked',)
     order, by = [], {}
     for m in mentions:
@@ -251,10 +257,13 @@ def jobs(tier):
     q = tier == 'quick'
     K = 2 if q else 3
     out = []
-    combos = [(o, 'html') for o in OPTSETS] + [('default', 'jsx'), ('default', 'vue'), ('default', 'xml')]
+    combos = [(o, 'html') for o in OPTSETS] + [('default', 'jsx'), ('default', 'vue'), ('default', 'xml'), ('upper', 'jsx'),
+                                                ('custom-map', 'jsx')]
     relevant = {('default', 'html'): range(NKIND), ('single', 'html'): (ID, RAW, DQ, SQ, EXPR),
                 ('compact', 'html'): (BOOL, NOVAL, RAW), ('reverse', 'html'): PLAIN, ('xhtml', 'html'): (NOVAL, EMPTY, BOOL),
                 ('upper', 'html'): (RAW, CLS, NOVAL), ('custom-map', 'html'): (RAW, ID, NOVAL),
+                ('upper-map', 'html'): (RAW, ID, BOOL), ('compact-upper', 'html'): (BOOL, NOVAL), ('reverse-single', 'html'): (RAW, DQ),
+                ('upper', 'jsx'): (CLS, RAW), ('custom-map', 'jsx'): (CLS, ID),
                 ('default', 'jsx'): (CLS, RAW, EXPR), ('default', 'vue'): (CLS, RAW), ('default', 'xml'): (NOVAL, BOOL, RAW)}
     for (o, syn) in combos:
         for k1 in (relevant[(o, syn)] if q else range(NKIND)):
